@@ -176,7 +176,7 @@ def check_obligations(prop_id: str, expected: Sequence[str] = ()) -> Obligations
     src = strip_comments(open(vfile).read())
     # the property file may contain only imports, Theorem/Proof. exact/Qed, Check, Print Assumptions
     body = re.sub(r"(Theorem|Lemma)\s+\w+\s*:.*?\.\s*Proof\.\s*exact\s+[^.]*(\.[A-Za-z_][\w.']*)*\s*\.\s*Qed\.", "", src, flags=re.S)
-    body = re.sub(r"(From\s+\S+\s+)?Require\s+(Import|Export)\s+[^.]*(\.[A-Za-z_]\w*)*\s*\.", "", body)
+    body = re.sub(r"(From\s+\S+\s+)?Require\s+(Import|Export)\s+([A-Za-z_][\w.]*\s+)*[A-Za-z_][\w.]*?\.(?=\s|$)", "", body)
     body = re.sub(r"Print\s+Assumptions\s+\w+\s*\.", "", body)
     body = re.sub(r"Check\s+[^.]*\.", "", body)
     body = re.sub(r"(Import|Export|Open Scope|Local Open Scope)\s+[^.]*\.", "", body)
